@@ -30,9 +30,11 @@ type RunSpec struct {
 	ReqUser  string
 	ReqHost  string
 	Via      string
+	NilAttrs bool // the parameters carry no client attributes (struct built directly)
 	Agent    string   // honest nokey otherkey otherdata replay garbage empty fail close
 	// DirEdit is applied to the registered-key directory before the run: file -> key spec, "" = delete.
 	DirEdit  map[string]string
+	// "panic": a harness handler whose Authenticate panics
 	Handlers []string // real | accept | reject | reject-disabled | reject-invalid | reject-unknown | reject-untyped | reject-panic-typed
 }
 
@@ -120,6 +122,9 @@ func gen(t *rapid.T) Case {
 			DirEdit: edit,
 			Agent:   rapid.SampledFrom([]string{"honest", "honest", "honest", "nokey", "otherkey", "otherdata", "replay", "replay", "garbage", "empty", "fail", "close"}).Draw(t, l+"Agent"),
 		}
+		if r.Via == "direct" && rapid.IntRange(0, 9).Draw(t, l+"NilAttrs") == 0 {
+			r.NilAttrs = true
+		}
 		// handler list: at most one real handler, any accept/reject pattern around it
 		nh := rapid.IntRange(1, 4).Draw(t, l+"NH")
 		realAt := rapid.IntRange(-1, nh-1).Draw(t, l+"RealAt")
@@ -130,7 +135,7 @@ func gen(t *rapid.T) Case {
 			if j == realAt {
 				r.Handlers = append(r.Handlers, "real")
 			} else {
-				r.Handlers = append(r.Handlers, rapid.SampledFrom([]string{"reject", "reject", "accept", "accept", "reject-disabled", "reject-disabled", "reject-invalid", "reject-unknown", "reject-untyped", "reject-panic-typed"}).Draw(t, fmt.Sprintf("%sH%d", l, j)))
+				r.Handlers = append(r.Handlers, rapid.SampledFrom([]string{"reject", "reject", "accept", "accept", "reject-disabled", "reject-disabled", "reject-invalid", "reject-unknown", "reject-untyped", "reject-panic-typed", "panic"}).Draw(t, fmt.Sprintf("%sH%d", l, j)))
 			}
 		}
 		c.Runs = append(c.Runs, r)
@@ -287,7 +292,7 @@ func exec(c Case) (vh.Outcome, error) {
 		signs = nil
 		ca := &vh.FakeCA{Default: vh.CABehaviour{NCerts: 1}}
 		hlog := &vh.HandlerLog{}
-		param, perr := vh.BuildParam(vh.ParamSpec{LogName: r.LogName, Policy: r.Policy, HardKey: r.HardKey, ReqUser: r.ReqUser, ReqHost: r.ReqHost, ClientIP: "172.17.0.1", TransID: fmt.Sprintf("%010x", ri), Via: r.Via})
+		param, perr := vh.BuildParam(vh.ParamSpec{LogName: r.LogName, Policy: r.Policy, HardKey: r.HardKey, ReqUser: r.ReqUser, ReqHost: r.ReqHost, ClientIP: "172.17.0.1", TransID: fmt.Sprintf("%010x", ri), Via: r.Via, NilAttrs: r.NilAttrs})
 		if perr != nil {
 			return out, vh.Errf("%s: parameters did not build: %v", where, perr)
 		}
@@ -315,6 +320,9 @@ func exec(c Case) (vh.Outcome, error) {
 				fakes = append(fakes, nil)
 			} else {
 				fh := &vh.FakeHandler{ID: fmt.Sprintf("h%d", j), Accept: kind == "accept", Log: hlog, RejectKind: strings.TrimPrefix(strings.TrimPrefix(kind, "reject"), "-")}
+				if kind == "panic" {
+					fh.PanicIn = "authenticate"
+				}
 				handlers = append(handlers, fh)
 				fakes = append(fakes, fh)
 			}
@@ -351,12 +359,45 @@ func exec(c Case) (vh.Outcome, error) {
 		if K != nil && r.Agent != "honest" {
 			adversarialWithKey = true
 		}
-		sel := -1
+		sel, crashAt := -1, -1
 		for j, kind := range r.Handlers {
+			// without client attributes the real handler refuses a foreign namespace as usual and
+			// otherwise crashes on the missing attributes (reported as a Panic-typed error by Run)
+			if kind == "real" && r.NilAttrs {
+				kind = "reject"
+				if r.Policy == "NONS" {
+					kind = "panic"
+				}
+			}
+			if kind == "panic" {
+				crashAt = j
+				break
+			}
 			if kind == "accept" || (kind == "real" && realAuth) {
 				sel = j
 				break
 			}
+		}
+		if crashAt >= 0 {
+			// a handler crashed (or may have) while authenticating: nothing may be signed or added by
+			// this run unless a handler BEFORE it had authenticated (impossible here: sel < 0 or later)
+			out.Classes = append(out.Classes, "authenticate-crash")
+			kind := vh.ErrKind(runErr)
+			if runErr == nil {
+				return out, vh.Errf("%s: a handler crashed while authenticating, yet Run reported success", where)
+			}
+			if kind != "Panic" {
+				return out, vh.Errf("%s: handler %d panics in Authenticate but Run returned %s (%v)", where, crashAt, kind, runErr)
+			}
+			if ca.NCalls() != 0 || adds != 0 {
+				return out, vh.Errf("%s: no handler authenticated (one crashed), yet the CA received %d request(s) and the agent %d add(s)", where, ca.NCalls(), adds)
+			}
+			for j, fh := range fakes {
+				if fh != nil && j > crashAt && len(hlogEvents(hlog, fh.ID)) != 0 {
+					return out, vh.Errf("%s: handler %d was used after handler %d had crashed the run", where, j, crashAt)
+				}
+			}
+			continue
 		}
 		if sel > 0 && len(r.Handlers) >= 2 {
 			rejectBeforeAccept = true
@@ -460,6 +501,16 @@ func exec(c Case) (vh.Outcome, error) {
 	return out, nil
 }
 
+func hlogEvents(l *vh.HandlerLog, id string) []string {
+	var out []string
+	for _, e := range l.Snapshot() {
+		if strings.HasPrefix(e, id+".") {
+			out = append(out, e)
+		}
+	}
+	return out
+}
+
 func orDefault(name string) string {
 	if name == "" {
 		return "p256b"
@@ -467,7 +518,7 @@ func orDefault(name string) string {
 	return name
 }
 
-const rule = "histories of 1..4 runs of gensign.Run sharing one registered-key directory (a third of the later runs first replace, break or delete a '<name>.pub' / '<name>' file) and one scripted forwarded agent; in half of the histories every run uses the same regular.Handler object and forwarded connection, otherwise each run builds its own. Per run: login name (incl. names of other users and 'alice.pub'), namespace policy NONS / NSOK, hardware-key flag, client-declared user / host different from the login name, parameters built directly or through NewReqParam, agent behaviour {honest, lacks the key, signs with another key, signs other data, replays a signature captured earlier in the history, garbage, empty signature, failure, closes the connection}, handler list of 1..4 entries with at most one real regular handler among accepting harness handlers and harness handlers rejecting with every kind of error (authentication, disabled, invalid parameters, unknown, panic-typed, untyped). Directory: '<n>.pub' and bare '<n>' files holding any user's key (RSA, ECDSA, Ed25519, and the types nobody can answer for through the forwarded agent: security-key types, a certificate line, DSA), both with different keys, unparsable, absent. Oracle: the harness sees every sign request and reply and decides itself (K.Verify over this run's challenge under the registered key) whether the real handler may authenticate; CA call or add-identity => the selected handler is the first in list order that authenticates, earlier ones asked once, later ones never; none => AllAuthFailed, no Generate, no CA call, no add; a handler authenticates => the run succeeds with exactly one request from that handler; challenges are 64 bytes, only under the registered key, pairwise distinct over the history. Non-trivial: an adversarial agent while the key file exists, or a reject before an accept in a list of >= 2."
+const rule = "histories of 1..4 runs of gensign.Run sharing one registered-key directory (a third of the later runs first replace, break or delete a '<name>.pub' / '<name>' file) and one scripted forwarded agent; in half of the histories every run uses the same regular.Handler object and forwarded connection, otherwise each run builds its own. Per run: login name (incl. names of other users and 'alice.pub'), namespace policy NONS / NSOK, hardware-key flag, client-declared user / host different from the login name, parameters built directly or through NewReqParam, agent behaviour {honest, lacks the key, signs with another key, signs other data, replays a signature captured earlier in the history, garbage, empty signature, failure, closes the connection}, handler list of 1..4 entries with at most one real regular handler among accepting harness handlers and harness handlers rejecting with every kind of error (authentication, disabled, invalid parameters, unknown, panic-typed, untyped) or panicking inside Authenticate; a tenth of the directly built parameter sets carry no client attributes at all. Directory: '<n>.pub' and bare '<n>' files holding any user's key (RSA, ECDSA, Ed25519, and the types nobody can answer for through the forwarded agent: security-key types, a certificate line, DSA), both with different keys, unparsable, absent. Oracle: the harness sees every sign request and reply and decides itself (K.Verify over this run's challenge under the registered key) whether the real handler may authenticate; CA call or add-identity => the selected handler is the first in list order that authenticates, earlier ones asked once, later ones never; none => AllAuthFailed, no Generate, no CA call, no add; a handler that crashes while authenticating never counts as authenticated (error returned, no CA call, no add, no later handler used); a handler authenticates => the run succeeds with exactly one request from that handler; challenges are 64 bytes, only under the registered key, pairwise distinct over the history. Non-trivial: an adversarial agent while the key file exists, or a reject before an accept in a list of >= 2."
 
 func TestC01Auth(t *testing.T) {
 	vh.Run(t, vh.Spec[Case]{Property: "C01", Name: "TestC01Auth", Rule: rule, Gen: gen, Exec: exec})
